@@ -136,7 +136,7 @@ PLAN = {
             'gen': gens('fub', 'mb'),
             'random': suite(COLL_KINDS + MERGE_KINDS, 150, 1500, 10, 100, profiles=('budget',))
                       + [rnd(k, 'small', 'starve', 60, 600) for k in COLL_KINDS + MERGE_KINDS]
-                      + [rnd(k, 'real', 'starve', 12, 120) for k in COLL_KINDS + MERGE_KINDS]
+                      + [rnd(k, 'real', 'starve', 17, 170) for k in COLL_KINDS + MERGE_KINDS]
                       + [rnd(k, 'small', 'churn', 30, 300) for k in ['fu', 'fo']]},
     'C14': {'mc': mcs('fub', 'fub_b1', 'fu', 'mb', 'bu'),
             'gen': [dict(GEN[n], tails=['quiet']) for n in ('fub', 'fu', 'mb', 'bu')],
